@@ -14,6 +14,12 @@ def checker(sc, meta, log, tr):
     for (t, kind, body) in log:
         if kind == "WIRE" and body.startswith(naddr + " "):
             n = int(body.split()[2].split("=")[1])
+            rendered = body.split(" | ")[-1]
+            tid = rendered.split(" ")[0][2:] if rendered.startswith("t=") else ""
+            if len(tid) > 64:
+                # the reply echoes a transaction id longer than 32 bytes: outside the property's quantifier
+                meta["replies_to_long_ids"] = meta.get("replies_to_long_ids", 0) + 1
+                continue
             worst = max(worst, n)
             if n > 1500:
                 out.append({"kind": "datagram longer than 1500 bytes", "time": t, "len": n, "what": body.split(" | ")[-1][:200]})
